@@ -41,12 +41,12 @@ extern "C" int LLVMFuzzerTestOneInput(const uint8_t *data, size_t size) {
     fz::classify("def-error");
   } else {
     c.defined++;
-    yaep_verif.rec_limit = 300000;
+    yaep_verif.rec_limit = 300000; yaep_verif.alt_limit = 100000;
     ParseOpts po; po.den_limit = 200;
     Outcome o = runParse(*b, toks, cf, po);
     c.parsed++;
     fz::checkMessage(T, *b);
-    if (o.hook.rec_explosion) { c.explosions++; fz::classify("explosion"); }
+    if (o.exploded()) { c.explosions++; fz::classify(o.hook.alt_explosion ? "translation-explosion" : "explosion"); }
     else if (o.rc == E_BADTOK) { c.invalid_tok++; fz::classify("invalid-token"); }
     else if (o.rc == E_NOMEM && g_lib.cap_hits) fz::classify("memory-cap");
     else if (o.rc != 0) fz::violation(T, "yaep_parse returned " + std::to_string(o.rc) + " " + o.str());
@@ -63,7 +63,7 @@ extern "C" int LLVMFuzzerTestOneInput(const uint8_t *data, size_t size) {
   }
   b->destroy();
   delete b;
-  if (g_lib.live_blocks != base && g_lib.cap_hits == 0 && !yaep_verif.rec_explosion) fz::violation(T, "library holds " + std::to_string(g_lib.live_blocks - base) + " blocks after yaep_free_grammar");
+  if (g_lib.live_blocks != base && g_lib.cap_hits == 0 && !yaep_verif.rec_explosion && !yaep_verif.alt_explosion) fz::violation(T, "library holds " + std::to_string(g_lib.live_blocks - base) + " blocks after yaep_free_grammar");
   // memory released abnormally (cap / explosion exits leak by design): forget it
   if (g_lib.live_blocks != base) { g_lib.live_blocks = base; g_lib.live_bytes = 0; }
   return 0;
